@@ -1,5 +1,5 @@
 (* Pinned statements of C01: re-checked on every run. *)
-From SF Require Import Base.Prelude Gen.Generated Unsized.Types Unsized.Parse Unsized.Machine Unsized.Ops Unsized.Run Unsized.Proofs.EncodeParse Unsized.Proofs.Mem Unsized.Proofs.Notify Unsized.Proofs.Flat Unsized.Proofs.Layout Unsized.Proofs.Observe Unsized.Proofs.Path Unsized.Proofs.Context Unsized.Proofs.FocusOps Unsized.Proofs.NotifyInside Unsized.Proofs.Resize Unsized.Proofs.GenOps Unsized.Proofs.History Unsized.Proofs.Init Unsized.Proofs.History2 Unsized.Proofs.ExecTie Unsized.Proofs.ExecTie2 Unsized.Proofs.Keyed Unsized.Proofs.NotifyInside2 Unsized.Proofs.SetData Unsized.Proofs.History3 Unsized.Proofs.History4 Unsized.Proofs.Enums Properties.C01.
+From SF Require Import Base.Prelude Gen.Generated Unsized.Types Unsized.Parse Unsized.Machine Unsized.Ops Unsized.Run Unsized.Proofs.EncodeParse Unsized.Proofs.Mem Unsized.Proofs.Notify Unsized.Proofs.Flat Unsized.Proofs.Layout Unsized.Proofs.Observe Unsized.Proofs.Path Unsized.Proofs.Context Unsized.Proofs.FocusOps Unsized.Proofs.NotifyInside Unsized.Proofs.Resize Unsized.Proofs.GenOps Unsized.Proofs.History Unsized.Proofs.Init Unsized.Proofs.History2 Unsized.Proofs.ExecTie Unsized.Proofs.ExecTie2 Unsized.Proofs.Keyed Unsized.Proofs.NotifyInside2 Unsized.Proofs.SetData Unsized.Proofs.History3 Unsized.Proofs.History4 Unsized.Proofs.Enums Unsized.Proofs.InitKinds Properties.C01.
 
 Check (C01_flat_step_refines :
   forall ts vs s top o vs',
@@ -205,6 +205,19 @@ Check (C01_dispatcher_tie_switch :
     (exists X xv, resolve t v pi = Some (X, xv) /\ (exists rw vs, X = TEnum rw vs)) ->
     mstepZ ovf t s top (ZSwitch pi d) = Ok r ->
     forall fuel, (length pi < fuel)%nat -> exec fuel ovf t s top [] (enc_path t v pi ++ [60; d]) = Ok r).
+Check (C01_initializer_writes_its_value :
+  forall it kind dv, ival it kind = Some dv -> ones_ok it kind = true ->
+    init_bytes it kind = Ok (encode it dv) /\ init_size it kind = zlen (encode it dv) /\ wf it dv = true).
+Check (C01_run_refines_with_initializers :
+  forall ovf t h v s top pi0 v' obss,
+    RepF pi0 t v s top -> m_refuse s <> 1 -> orunK (m_cap s) t v h = Some (v', obss) ->
+    exists s' top' pi', mrunK ovf t s top h = Ok (s', top', obss) /\ RepF pi' t v' s' top' /\ m_cap s' = m_cap s).
+Check (C01_dispatcher_refines_initializers :
+  forall ovf t v s top o v' obs,
+    RepF [] t v s top -> m_refuse s <> 1 -> is_new o -> ostepK (m_cap s) t v o = Some (v', obs) ->
+    forall fuel, (length (kfocus o) < fuel)%nat ->
+    exists s' top' pi', exec fuel ovf t s top [] (enc_kop t v o) = Ok (s', top', obs) /\
+                        RepF pi' t v' s' top' /\ m_cap s' = m_cap s /\ m_refuse s' = m_refuse s).
 
 Print Assumptions C01_flat_step_refines.
 Print Assumptions C01_flat_run_refines.
@@ -239,3 +252,6 @@ Print Assumptions C01_every_shape.
 Print Assumptions C01_enum_switch_refines.
 Print Assumptions C01_run_refines_with_switches.
 Print Assumptions C01_dispatcher_tie_switch.
+Print Assumptions C01_initializer_writes_its_value.
+Print Assumptions C01_run_refines_with_initializers.
+Print Assumptions C01_dispatcher_refines_initializers.
